@@ -7,6 +7,7 @@ import (
 	"fmt"
 	"go/token"
 	"go/types"
+	"strings"
 
 	"golang.org/x/tools/go/ssa"
 )
@@ -132,6 +133,29 @@ func init() {
 	}
 	models["fmt.Errorf"] = func(x *Exec, st *State, fr *Frame, fn *ssa.Function, args []Value, pos token.Pos) []Outcome {
 		return single(st, x.nonNilErr(st, "fmt.Errorf"))
+	}
+	// fmt.Sprintf with up to three operands: the result is a function of the format and of the
+	// operands' interface identities (themselves functions of scalar payloads).  Lets a contract
+	// say which values a formatted key is made from (spec builtin sprintf).
+	models["fmt.Sprintf"] = func(x *Exec, st *State, fr *Frame, fn *ssa.Function, args []Value, pos token.Pos) []Outcome {
+		if len(args) != 2 || args[1].K != KSlice || args[0].K != KStr {
+			return nil
+		}
+		n, ok := isIntLit(args[1].Len)
+		if !ok || !n.IsInt64() || n.Int64() > 3 {
+			return nil
+		}
+		et := args[1].T.Underlying().(*types.Slice).Elem()
+		terms, sorts := []string{args[0].S}, []string{sStr}
+		for i := int64(0); i < n.Int64(); i++ {
+			el := x.loadElem(st, args[1].Rid, mkAdd(args[1].Off, intLit64(i)), et)
+			terms = append(terms, el.S)
+			sorts = append(sorts, sInt)
+		}
+		name := fmt.Sprintf("pure.fmt.Sprintf.%d", n.Int64())
+		x.d.fun(name, sorts, sStr)
+		x.pureCalls["fmt.Sprintf"] = true
+		return single(st, Value{K: KStr, T: types.Typ[types.String], S: "(" + name + " " + strings.Join(terms, " ") + ")"})
 	}
 	models["errors.Is"] = func(x *Exec, st *State, fr *Frame, fn *ssa.Function, args []Value, pos token.Pos) []Outcome {
 		return single(st, boolV(x.errIs(st, args[0].S, args[1].S)))
